@@ -345,6 +345,12 @@ class TorchCalls(TorchOps):
                 if all(t is not None for t in ts):
                     return Const(any(ts) if fn == "any" else all(ts))
             e_ = lst.elem if isinstance(lst, ListV) and lst.items is None else None
+            t_ = I.truth(e_) if e_ is not None else None
+            if t_ is not None and ((fn == "all" and t_ is False) or (fn == "any" and t_ is True)):
+                # every element has the same known truth value (a function returning None called for its effect): all() stops at the first falsy
+                # element, any() at the first truthy one — only the FIRST element is ever evaluated
+                self.ev("short_circuit", node, fn=fn, what=f"{fn}() over values that are always {'falsy' if fn == 'all' else 'truthy'}: evaluation stops after the first element")
+                return Const(fn == "any")
             if isinstance(e_, TV) and e_.note.startswith("nonempty?") and "(&:" in e_.note:
                 # element-wise overlap tests folded by all()/any(): all(S.isdisjoint(t) for t in ts) asks whether S meets NO t — the emptiness of the
                 # intersection with the whole family; any(not S.isdisjoint(t) ...) asks the opposite
